@@ -5,6 +5,7 @@ import (
 	"fmt"
 	"io"
 	"runtime"
+	"strings"
 	"runtime/debug"
 	"testing"
 	"time"
@@ -42,7 +43,9 @@ type caseA struct {
 	EOFWithData bool   `json:"eof_with_data,omitempty"`
 	// negative cases: Neg is "", "trunc" (stream cut to NegOff bytes), "xor" (byte NegOff
 	// xor-ed with NegXor), "size" (size field of chunk NegIdx replaced by NegStr), "drop"
-	// (chunk NegIdx removed) or "swap" (chunks NegIdx and NegIdx+1 exchanged)
+	// (chunk NegIdx removed), "swap" (chunks NegIdx and NegIdx+1 exchanged), "sigstr" (signature / checksum field
+	// number NegIdx replaced by NegStr: empty, shorter, longer, another field's value) or "forge" (an unsigned extra chunk
+	// inserted before the final one; NegStr = the kind of signature it carries)
 	Neg    string `json:"neg,omitempty"`
 	NegOff int    `json:"neg_off,omitempty"`
 	NegXor byte   `json:"neg_xor,omitempty"`
@@ -236,6 +239,53 @@ func runA(c caseA) error {
 		stream = append(append(append([]byte(nil), stream[:f.Start]...), c.NegStr...), stream[f.End:]...)
 		kind = s3c.FSize
 		negative = fmt.Sprintf("size field of chunk %d %q->%q", c.NegIdx, e.Bytes[f.Start:f.End], c.NegStr)
+	case "sigstr":
+		// a whole signature / checksum field replaced (emptied, shortened, extended, another one's value)
+		var fs []s3c.Field
+		for _, x := range e.Fields {
+			if x.Kind == s3c.FChunkSig || x.Kind == s3c.FTrailerSig || x.Kind == s3c.FChecksum {
+				fs = append(fs, x)
+			}
+		}
+		if len(fs) == 0 || c.NegIdx < 0 {
+			return nil
+		}
+		f := fs[c.NegIdx%len(fs)]
+		old := string(e.Bytes[f.Start:f.End])
+		repl := c.NegStr
+		switch c.NegStr {
+		case "<shorter>":
+			repl = old[:len(old)-1]
+		case "<longer>":
+			repl = old + "0"
+		case "<other>":
+			o := fs[(c.NegIdx+1)%len(fs)]
+			repl = string(e.Bytes[o.Start:o.End])
+		}
+		if strings.EqualFold(repl, old) {
+			return nil
+		}
+		stream = append(append(append([]byte(nil), stream[:f.Start]...), repl...), stream[f.End:]...)
+		kind = f.Kind
+		negative = fmt.Sprintf("%s field %q replaced by %q", f.Kind, old, repl)
+	case "forge":
+		// an extra data chunk nobody signed, put in before the final chunk: with an empty, a made-up or no signature
+		if len(sizeStarts) == 0 {
+			return nil
+		}
+		at := sizeStarts[len(sizeStarts)-1]
+		extra := "EVIL!"
+		hdr := fmt.Sprintf("%x", len(extra))
+		switch c.NegStr {
+		case "empty":
+			hdr += ";chunk-signature="
+		case "zeros":
+			hdr += ";chunk-signature=" + strings.Repeat("0", 64)
+		case "bare":
+		}
+		forged := hdr + "\r\n" + extra + "\r\n"
+		stream = append(append(append([]byte(nil), stream[:at]...), forged...), stream[at:]...)
+		negative = fmt.Sprintf("a forged %d-byte chunk (%s signature) inserted before the final chunk", len(extra), c.NegStr)
 	case "drop", "swap":
 		// data chunks are the records before the final zero-size chunk
 		nd := len(sizeStarts) - 1
@@ -286,7 +336,7 @@ func runA(c caseA) error {
 		return nil // rejected
 	}
 	switch c.Neg {
-	case "trunc", "drop", "swap":
+	case "trunc", "drop", "swap", "forge":
 		return fmt.Errorf("%s %s: accepted (decoded %d bytes, payload %d)", c.Mode, negative, len(res.out), len(payload))
 	}
 	verified := kind == s3c.FData || kind == s3c.FChunkSig || kind == s3c.FChecksum || kind == s3c.FTrailerSig
@@ -401,7 +451,14 @@ func genCase(t *rapid.T, negative bool) caseA {
 				nsize++
 			}
 		}
-		switch rapid.IntRange(0, 9).Draw(t, "neg_kind") {
+		switch rapid.IntRange(0, 11).Draw(t, "neg_kind") {
+		case 10:
+			c.Neg = "sigstr"
+			c.NegIdx = rapid.IntRange(0, 40).Draw(t, "sig_idx")
+			c.NegStr = rapid.SampledFrom([]string{"", "<shorter>", "<longer>", "<other>", "0", " "}).Draw(t, "sig_str")
+		case 11:
+			c.Neg = "forge"
+			c.NegStr = rapid.SampledFrom([]string{"empty", "zeros", "bare"}).Draw(t, "forge_sig")
 		case 0, 1, 2:
 			c.Neg = "trunc"
 			if rapid.Bool().Draw(t, "trunc_at_field") { // cut exactly at a field boundary
